@@ -35,6 +35,10 @@ GRAPHS = {
     "one-file-reached-by-two-relative-paths": ([("main.oal", ["lib/a.oal", "lib/b.oal"], "res / on get -> <ta & tlb>;"), ("lib/a.oal", ["b.oal", "./b.oal", "../lib/b.oal"], "let ta = tlb;"),
                                                 ("lib/b.oal", [], "let tlb = {};")], "ok"),
     "cycle-across-directories": ([("main.oal", ["lib/a.oal"], "res / on get -> <{}>;"), ("lib/a.oal", ["../main.oal"], "let ta = {};")], "cycle"),
+    # a use statement may stand anywhere among the statements of a module
+    "use-after-a-declaration": ([("main.oal", [], 'let t0 = {};\nuse "a.oal";\nres / on get -> <ta & t0>;'), ("a.oal", [], 'let ta = tb;\nuse "b.oal";'), ("b.oal", [], "let tb = {};")], "ok"),
+    "cycle-closed-by-a-late-use": ([("main.oal", ["a.oal"], "res / on get -> <{}>;"), ("a.oal", [], 'let ta = {};\nuse "main.oal";')], "cycle"),
+    "missing-late-import": ([("main.oal", [], 'res / on get -> <{}>;\nuse "nope.oal";')], "missing:nope.oal"),
     "missing-import": ([("main.oal", ["a.oal"], "res / on get -> <{}>;"), ("a.oal", ["nope.oal"], "let ta = {};")], "missing:nope.oal"),
 }
 
@@ -380,6 +384,24 @@ def check():
     o.extra["paths_by_role"] = shape
     if min(shape.values()) == 0:
         o.inconc("module::load: a step lemma found no path to talk about (%s)" % shape)
+    # what load() iterates over: Program::imports hands out every use statement of the module, wherever it stands
+    # (children -> cast; no stage that stops at the first statement of another kind)
+    try:
+        MSy = mirlib.module("oal-syntax")
+        for acc in ("imports", "declarations"):
+            fa = [f for f in MSy.funcs if f.kind == "fn" and f.name.split("::")[-1] == acc and len(f.args) == 1 and "Program<" in f.args[0][1]]
+            if len(fa) != 1:
+                o.inconc("Program::%s not found in the MIR of oal-syntax" % acc)
+                continue
+            o.functions.append(mirlib.func_ref(fa[0], "oal-syntax"))
+            exa = mirlib.executor([MSy])
+            rets = [p for p in exa.run(fa[0], arg_names=["self"]) if p.kind == "return"]
+            txt = ms.show(rets[0].ret) if len(rets) == 1 else ""
+            stages = re.findall(r"Iterator::(\w+)\(", txt)
+            structural("Program::%s: every child of the program node is offered to the cast (children -> filter_map, nothing that ends the walk early)" % acc,
+                       len(rets) == 1 and "NodeRef::children" in txt and stages == ["filter_map"])
+    except Exception as exn:
+        o.inconc("Program accessors: %s" % str(exn)[:120])
     o.samples = [{"query": q["name"], "verdict": q["verdict"]} for q in o.queries[:14]]
     mism, rdir, detail = run_graphs()
     o.extra["recording_loader_runs"] = detail
